@@ -6,10 +6,16 @@
 // case line:  F<0|1> N=<name0>,<name1>,... <op> <op> ...
 //   S:i:t:hex           complete save          K:i:t:hex:p0,p1,..  crashed save (per-sector progress, - = none)
 //   P:i:hex             raw file content       L:i:now  load       G:now  gc        X:i  remove
+//   D:i:now:k1,k2,..    load during which the j-th read() call for the DATA (the 4th, 5th, .. read of the load) returns at most k_j bytes
+//   H:i:now:k1,k2,..    load during which the j-th read() call (counted from the first: the header fields included) returns at most k_j bytes
+//   Y:now:k             gc during which every read() returns at most k bytes (read_timestamp goes through read_all)
+//   W:i:t:hex:k1,k2,..  complete save during which the j-th write() call accepts at most k_j bytes (0 = everything): short writes
 //   T:i:t:n:iters:len   n writer and n reader threads hammer session i (values = one byte repeated, length depends on the byte), then remove and a
 //                       final save of "final": T=ok unless some load failed or returned a value no writer wrote
 //   U:i:t:n:iters:len   the same with n writer and n reader *processes* (fork; only with F1: the fcntl lock is what excludes them)
-//   M:i:now:mb          load with the address space limited to what the process uses now + mb MiB (RLIMIT_AS): M=EXC(..) when load throws
+//   M:i:now:mb          load with the address space limited to what the process uses now + mb MiB (RLIMIT_AS): M=EXC when load throws std::bad_alloc
+//   L and M watch operator new during the real load: a single request larger than max(file length, 4096) bytes is reported as
+//   <result>!alloc=<bytes> (the loader must not size a buffer from a field of the file that the file length does not back)
 //   V:hexcookie         session_sid::valid_sid                      Q:now:hexcookie  session_sid::load (valid_sid + load + expiry re-check)
 // answer: one token per op:  <result>{i=len.crc32,...}   (directory summary after the op, crc32 by own bitwise code)
 #include "session_posix_file_storage.h"
@@ -41,21 +47,66 @@
 #include "hexio.h"
 using namespace hx;
 
+#include <new>
+// every operator new of the process (libcppcms included) comes here; while g_track is set the largest single request is remembered
+static volatile bool g_track = false;
+static volatile size_t g_maxreq = 0;
+static void *c18_alloc(size_t n)
+{
+	if(g_track && n > g_maxreq) g_maxreq = n;
+	void *p = malloc(n ? n : 1);
+	if(!p) throw std::bad_alloc();
+	return p;
+}
+void *operator new(size_t n) { return c18_alloc(n); }
+void *operator new[](size_t n) { return c18_alloc(n); }
+void *operator new(size_t n, std::nothrow_t const &) noexcept { if(g_track && n > g_maxreq) g_maxreq = n; return malloc(n ? n : 1); }
+void *operator new[](size_t n, std::nothrow_t const &) noexcept { if(g_track && n > g_maxreq) g_maxreq = n; return malloc(n ? n : 1); }
+void operator delete(void *p) noexcept { free(p); }
+void operator delete[](void *p) noexcept { free(p); }
+void operator delete(void *p, std::nothrow_t const &) noexcept { free(p); }
+void operator delete[](void *p, std::nothrow_t const &) noexcept { free(p); }
+
 static time_t g_now = 1000;
 extern "C" time_t time(time_t *p) { if(p) *p = g_now; return g_now; }
 
 struct wrec { int fd; uint64_t off; std::string data; };
 static bool g_rec = false;
 static std::vector<wrec> g_w;
+static std::vector<size_t> g_short;     // while recording: how many bytes the successive write() calls accept at most (0 = all)
+static size_t g_short_i = 0;
 extern "C" ssize_t write(int fd, const void *buf, size_t n)
 {
 	off_t o = g_rec ? lseek(fd, 0, SEEK_CUR) : 0;
+	if(g_rec && g_short_i < g_short.size()) {
+		size_t k = g_short[g_short_i++];
+		if(k > 0 && k < n) n = k;
+	}
 	ssize_t r = syscall(SYS_write, fd, buf, n);
 	if(g_rec && r > 0) {
 		wrec w; w.fd = fd; w.off = o; w.data.assign(static_cast<char const *>(buf), size_t(r));
 		g_w.push_back(w);
 	}
 	return r;
+}
+
+// read() is interposed the same way: while g_rd is set, reads number 4, 5, ... of the load are cut to g_rshort[j] bytes
+static bool g_rd = false;
+static size_t g_rd_skip = 3;     // reads of the load that are not cut (3 = the header fields)
+static size_t g_rd_every = 0;    // != 0: every read() is cut to this many bytes
+static size_t g_rd_calls = 0;
+static std::vector<size_t> g_rshort;
+extern "C" ssize_t read(int fd, void *buf, size_t n)
+{
+	if(g_rd) {
+		size_t c = g_rd_calls++;
+		if(g_rd_every) { if(g_rd_every < n) n = g_rd_every; }
+		else if(c >= g_rd_skip && c - g_rd_skip < g_rshort.size()) {
+			size_t k = g_rshort[c - g_rd_skip];
+			if(k > 0 && k < n) n = k;
+		}
+	}
+	return syscall(SYS_read, fd, buf, n);
 }
 
 static uint32_t crc_own(std::string const &s)
@@ -91,6 +142,24 @@ static void spit(std::string const &path, std::string const &data)
 	}
 	::close(fd);
 }
+struct alloc_watch {
+	size_t flen;
+	explicit alloc_watch(std::string const &path) : flen(0)
+	{
+		struct stat sb;
+		if(::stat(path.c_str(), &sb) == 0) flen = size_t(sb.st_size);
+		g_maxreq = 0; g_track = true;
+	}
+	~alloc_watch() { g_track = false; }
+	std::string verdict()
+	{
+		g_track = false;
+		size_t m = g_maxreq, lim = std::max<size_t>(flen, 4096);
+		if(m <= lim) return "";
+		char b[64]; snprintf(b, sizeof(b), "!alloc=%llu", (unsigned long long)m);
+		return b;
+	}
+};
 static void clean_dir(std::string const &dir)
 {
 	DIR *d = opendir(dir.c_str());
@@ -207,15 +276,17 @@ int main()
 			if(k > 2) out << ' ';
 			try {
 				char op = a[0].size() == 1 ? a[0][0] : '?';
-				if((op == 'S' && a.size() == 4) || (op == 'K' && a.size() == 5)) {
+				if((op == 'S' && a.size() == 4) || (op == 'K' && a.size() == 5) || (op == 'W' && a.size() == 5)) {
 					size_t i = atoi(a[1].c_str()); if(i >= names.size() || !valid32(names[i])) throw 1;
 					std::string path = dir + "/" + names[i];
 					time_t t = (time_t)strtoll(a[2].c_str(), 0, 10);
 					std::string d = unhex(a[3]);
 					std::string F; bool had = slurp(path, F); if(!had) F.clear();
+					g_short.clear(); g_short_i = 0;
+					if(op == 'W' && a[4] != "-") { std::vector<std::string> kv = splitc(a[4], ','); for(size_t j = 0; j < kv.size(); j++) g_short.push_back(strtoull(kv[j].c_str(), 0, 10)); }
 					g_w.clear(); g_rec = true;
-					try { st->save(names[i], t, d); } catch(...) { g_rec = false; throw; }
-					g_rec = false;
+					try { st->save(names[i], t, d); } catch(...) { g_rec = false; g_short.clear(); throw; }
+					g_rec = false; g_short.clear();
 					out << op << '[';
 					for(size_t j = 0; j < g_w.size(); j++)
 						out << (j ? "," : "") << g_w[j].off << '+' << g_w[j].data.size() << '+' << hex8(crc_own(g_w[j].data));
@@ -243,8 +314,33 @@ int main()
 					size_t i = atoi(a[1].c_str()); if(i >= names.size() || !valid32(names[i])) throw 1;
 					g_now = (time_t)strtoll(a[2].c_str(), 0, 10);
 					time_t t = 0; std::string d = "stale";
-					if(st->load(names[i], t, d)) out << "L=" << (long long)t << '.' << hex(d);
+					alloc_watch aw(dir + "/" + names[i]);
+					bool ok = st->load(names[i], t, d);
+					std::string av = aw.verdict();
+					if(ok) out << "L=" << (long long)t << '.' << hex(d);
 					else out << "L=none";
+					out << av;
+				}
+				else if(op == 'Y' && a.size() == 3) {
+					g_now = (time_t)strtoll(a[1].c_str(), 0, 10);
+					g_rd_every = strtoull(a[2].c_str(), 0, 10); if(g_rd_every == 0) throw 1;
+					g_rd_calls = 0; g_rd = true;
+					try { fact.gc_job(); } catch(...) { g_rd = false; g_rd_every = 0; throw; }
+					g_rd = false; g_rd_every = 0;
+					out << 'Y';
+				}
+				else if((op == 'D' || op == 'H') && a.size() == 4) {
+					size_t i = atoi(a[1].c_str()); if(i >= names.size() || !valid32(names[i])) throw 1;
+					g_now = (time_t)strtoll(a[2].c_str(), 0, 10);
+					g_rshort.clear();
+					if(a[3] != "-") { std::vector<std::string> kv = splitc(a[3], ','); for(size_t j = 0; j < kv.size(); j++) g_rshort.push_back(strtoull(kv[j].c_str(), 0, 10)); }
+					time_t t = 0; std::string d = "stale";
+					g_rd_calls = 0; g_rd_skip = (op == 'H') ? 0 : 3; g_rd = true;
+					bool ok;
+					try { ok = st->load(names[i], t, d); } catch(...) { g_rd = false; throw; }
+					g_rd = false;
+					if(ok) out << op << '=' << (long long)t << '.' << hex(d);
+					else out << op << "=none";
 				}
 				else if(op == 'G' && a.size() == 2) {
 					g_now = (time_t)strtoll(a[1].c_str(), 0, 10);
@@ -260,13 +356,16 @@ int main()
 					new_l = old_l; new_l.rlim_cur = rlim_t(pages) * rlim_t(sysconf(_SC_PAGESIZE)) + rlim_t(mb) * 1048576u;
 					if(pages == 0 || setrlimit(RLIMIT_AS, &new_l) != 0) throw 1;
 					time_t t = 0; std::string d = "stale";
+					alloc_watch aw(dir + "/" + names[i]);
 					try {
 						bool ok = st->load(names[i], t, d);
+						std::string av = aw.verdict();
 						setrlimit(RLIMIT_AS, &old_l);
 						if(ok) out << "M=" << (long long)t << '.' << hex(d); else out << "M=none";
+						out << av;
 					}
-					catch(std::bad_alloc const &) { setrlimit(RLIMIT_AS, &old_l); out << "M=EXC"; }
-					catch(...) { setrlimit(RLIMIT_AS, &old_l); throw; }
+					catch(std::bad_alloc const &) { setrlimit(RLIMIT_AS, &old_l); out << "M=EXC" << aw.verdict(); }
+					catch(...) { aw.verdict(); setrlimit(RLIMIT_AS, &old_l); throw; }
 				}
 				else if(op == 'T' && a.size() == 6) {
 					size_t i = atoi(a[1].c_str()); if(i >= names.size() || !valid32(names[i])) throw 1;
